@@ -918,7 +918,7 @@ pub fn main(args: &Args) -> i32 {
         let (cm, info) = minimise(&c, sig);
         let ex = execute(&cm);
         let detail = ex.verdict.as_ref().map(|v| v.1.clone()).unwrap_or_default();
-        let path = format!("{}/replays/{PROP}-{}-{}.json", simcore::VERIF_DIR, base_seed, idx);
+        let path = format!("{}/replays/{PROP}-{}-{}.json", simcore::verif_dir(), base_seed, idx);
         simcore::write_json_atomic(
             &path,
             &json!({"property": PROP, "engine": "sim_io/c12 (SimTransport + SimReader)", "base_seed": base_seed, "run_index": idx,
@@ -989,7 +989,7 @@ pub fn main(args: &Args) -> i32 {
             "sampled, not exhaustive (the single- and double-split sweep over small documents is exhaustive for its own finite set)"
         ],
     });
-    simcore::write_json_atomic(&format!("{}/evidence/{PROP}.json", simcore::VERIF_DIR), &ev);
+    simcore::write_json_atomic(&format!("{}/evidence/{PROP}.json", simcore::verif_dir()), &ev);
     println!(
         "runs={} read_calls={} traces={} nontrivial={} boundary_sigs={} abs_checked={} violating_runs={} wall={:.1}s digest={:016x}",
         acc.runs, acc.read_calls, traces, nontrivial, bsigs, acc.abs_checked, acc.violations.total(), wall, acc.digest
